@@ -30,9 +30,24 @@ Theorem C10_one_method_per_rule_then_numbered_helpers :
   forall invalid_tbl iter_fields pre suf file fb g an M,
   generate invalid_tbl iter_fields pre suf file fb g an = inl M ->
   exists helpers ks, map m_name (i_meths M) = (map rname (rules g) ++ map rname helpers)%list /\
-                     Forall2 (fun r k => helper_name (rname r) k) helpers ks /\ NoDup ks.
+                     Forall2 (fun r k => helper_name (rname r) k) helpers ks /\ NoDup ks /\
+                     Forall (fun k => k <= List.length helpers) ks.
 Proof. exact generated_methods_follow_the_rules. Qed.
 Print Assumptions C10_one_method_per_rule_then_numbered_helpers.
+
+(* Hence no method is defined twice (a second `def` of the same name would silently replace the first): when the rules of
+   the grammar have distinct names that do not begin with an underscore (what the generator's up-front check demands, C13)
+   all method names of the module are pairwise distinct.  Decimal rendering is injective (Proofs/DecimalInj.v) below the
+   10^40 the model's renderer can print, a bound on the number of methods. *)
+From Pegen Require Import Proofs.DecimalInj.
+Theorem C10_method_names_pairwise_distinct :
+  forall invalid_tbl iter_fields pre suf file fb g an M,
+  generate invalid_tbl iter_fields pre suf file fb g an = inl M ->
+  NoDup (map rname (rules g)) -> (forall r, In r (rules g) -> startswith "_" (rname r) = false) ->
+  (N.of_nat (List.length (i_meths M)) < 10 ^ 40)%N ->
+  NoDup (map m_name (i_meths M)).
+Proof. exact generated_method_names_distinct. Qed.
+Print Assumptions C10_method_names_pairwise_distinct.
 
 (* the tables are strictly sorted and hold exactly the quoted words of the grammar *)
 Theorem C10_generated_keyword_tables_sorted_and_exact :
